@@ -14,7 +14,7 @@ git -C /repo worktree add -q --detach "$d/wt" "$base" || exit 2
 if [ "$patch" != /dev/null ]; then
   (cd "$d/wt" && git apply --3way "$patch" >/dev/null 2>&1) || { echo "PATCH-DOES-NOT-APPLY $patch"; exit 2; }
 fi
-mkdir -p "$d/verif" && cp -r /verif/go.mod /verif/vcheck /verif/known_findings.txt "$d/verif/"
+mkdir -p "$d/verif" && src=${SEEDALT_SRC:-/verif}; cp -r $src/go.mod $src/vcheck $src/known_findings.txt "$d/verif/"
 sed -i "s#=> /repo#=> $d/wt#" "$d/verif/go.mod"
 sed -i "s#const verifDir = \"/verif\"#const verifDir = \"$d/verif\"#" "$d/verif/vcheck/engine.go"
 cd "$d/verif" || exit 2
